@@ -55,6 +55,17 @@ def _hook(ctx: Ctx, run: BuilderRun, mod: Any, valid_subject: bool, valid_servic
     repo = ctx.repo
 
     def record_models(e: ast.expr, f: Folder) -> Any:
+        if isinstance(e, ast.Call) and isinstance(e.func, (ast.Call, ast.Subscript, ast.IfExp)):
+            # the predicate reached through a computed callee: getattr(module, name)(...), table[key](...)
+            try:
+                cv = f.fold(e.func)
+            except Unfoldable:
+                cv = None
+            target_c = getattr(getattr(cv, "fn", cv), "name", None) if type(cv).__name__ in ("FnRef", "FuncInfo") else None
+            if target_c in ("is_valid_regulated_subject_id", "is_valid_regulated_service_id"):
+                args = tuple(f.fold(a) for a in e.args)
+                run.validity_calls.append((target_c, args))
+                return valid_service if target_c.endswith("service_id") else valid_subject
         if isinstance(e, ast.Call) and isinstance(e.func, (ast.Name, ast.Attribute)):
             try:
                 k = repo.resolve_expr(f.mod, e.func, f.cls) if f.mod is not None and (dotted(e.func) or "").split(".")[0] not in f.env else None
